@@ -572,6 +572,15 @@ def SCHED(schedule, cyclical, prereg=(), K=0, horizon=6, second=None):
     return spec(nm, devs, horizon, ops, K)
 
 
+def SCHED_SAME(K=0, horizon=4):
+    '''Two assets of the same class that carry the same user-given name, both registered with one scheduler.'''
+    f1, f2 = flow('f1', []), flow('f2', [])
+    f1['asset_name'] = f2['asset_name'] = 'station'
+    devs = [f1, f2, sched('A', [(1, 'on'), (0.5, 'off')], True, [('f1', 'default'), ('f2', 'default')])]
+    ops = [('unreg', 'A', 'f2'), ('reg', 'A', 'f2', 'override'), ('unreg', 'A', 'f1'), ('reg', 'A', 'f1', 'default')]
+    return spec(f'SCHEDSAME[K{K}]', devs, horizon, ops, K)
+
+
 def SCHED_BLOCK(K=0, horizon=6, ops=None):
     '''examples/OperatingSchedule.py in small: a shift schedule blocks the input of a machine.'''
     devs = [src('S', 1), proc('M1', ['S'], 1), sink('K', ['M1']),
